@@ -71,10 +71,10 @@ ROWS = [
     (r"^lang::lex::BasicLexer::collapse_(doubles|triples)/call:Vec::splice#1$", "reasoned",
      "index..index+n was recorded from windows(n).enumerate() of the same vector; recorded "
      "windows share at most their end tokens and are spliced from the highest index down, so "
-     "each range is still inside the vector", None),
+     "each range is still inside the vector", {"recorded_in_one_loop": True}),
     (r"^lang::lex::BasicLexer::separate_words/call:Vec::insert#1$", "reasoned",
      "index+1 <= len-1 because index indexes a windows(2) item; processed from the highest "
-     "index down", None),
+     "index down", {"recorded_in_one_loop": True}),
     (r"^lang::lex::BasicLexer::lex/call:Index::index<str>#\d$", "reasoned",
      "line_str_pos only advances over ASCII digits / blanks / tabs (one byte each) starting at "
      "0 and is re-validated by str::get each iteration: always a char boundary <= len",
